@@ -150,6 +150,11 @@ func GenEnv(t *rapid.T, opt EnvOpt) Env {
 		e.User = pick(t, "env/user", PlainUsers)
 		e.Denom = pick(t, "env/denom", world.EscrowDenoms)
 		e.Amount = pick(t, "env/amount", []string{"1", "7", "1000", "999999999"})
+		if Chance(t, "env/whale", 12) {
+			// amounts around and beyond the 64-bit boundary, from an account that holds them
+			e.User = "whale"
+			e.Amount = pick(t, "env/bigamount", []string{"9223372036854775807", "9223372036854775808", "18446744073709551616", "340282366920938463463374607431768211456"})
+		}
 	case "reescrow":
 		e.User = pick(t, "env/user", PlainUsers)
 		e.Channel = uniform(t, "env/channel", world.NumChannels)
